@@ -51,7 +51,7 @@ def run(cmd, timeout, cwd=None, env=None):
 
 
 def tlc_cmd(module, cfg, metadir, workers=1, extra=(), heap="3g", dfs=False):
-    opts = ["-XX:+UseParallelGC", "-Xss256m", "-Xmx" + heap]
+    opts = ["-XX:+UseParallelGC", "-XX:ParallelGCThreads=%d" % max(2, min(8, workers)), "-Xss256m", "-Xmx" + heap]
     if dfs:
         opts.append("-Dtlc2.tool.queue.IStateQueue=StateDeque")
     return (["java"] + opts + ["-cp", "/opt/veriftools/tla/tla2tools.jar:/opt/veriftools/tla/CommunityModules-deps.jar",
@@ -129,7 +129,9 @@ class Run:
             lines.append("CONSTRAINT " + constraint)
         if view:
             lines.append("VIEW " + view)
-        write_cfg(cfg, lines, consts or {})
+        mc_consts = {"Scale": "small"}
+        mc_consts.update(consts or {})
+        write_cfg(cfg, lines, mc_consts)
         meta = os.path.join(self.dir, "meta_mc_" + name)
         code, out, wall = run(tlc_cmd(module + ".tla", cfg, meta, workers=workers, heap=heap), timeout, cwd=self.specdir)
         shutil.rmtree(meta, ignore_errors=True)
@@ -153,7 +155,7 @@ class Run:
         """TLC computes vectors from the specification; the module writes OutFile (ndjson)."""
         name = tag or module
         outf = os.path.join(self.dir, "vec_%s.ndjson" % name)
-        c = {"Tier": self.tier, "Seed": self.seed, "OutFile": outf}
+        c = {"Tier": self.tier, "Seed": self.seed, "OutFile": outf, "Scale": "real"}
         c.update(consts or {})
         cfg = os.path.join(self.specdir, "%s_%s.cfg" % (name, self.tier))
         write_cfg(cfg, ["INIT Init", "NEXT Next", "CHECK_DEADLOCK FALSE"], c)
@@ -263,7 +265,7 @@ class Run:
                         f.write(ln + "\n")
                         n += 1
             cfg = os.path.join(self.specdir, "Trace_%s_%d.cfg" % (tag, i))
-            write_cfg(cfg, ["SPECIFICATION Spec", "CHECK_DEADLOCK FALSE"], {"TraceFile": sf})
+            write_cfg(cfg, ["SPECIFICATION Spec", "CHECK_DEADLOCK FALSE"], {"TraceFile": sf, "Scale": "real"})
             meta = os.path.join(self.dir, "meta_trace_%s_%d" % (tag, i))
             cmd = tlc_cmd("Trace.tla", cfg, meta, workers=1, heap="3g")
             p = subprocess.Popen(cmd, cwd=self.specdir, stdout=subprocess.PIPE, stderr=subprocess.STDOUT, text=True, errors="replace")
@@ -295,10 +297,13 @@ class Run:
                     self.coverage[k] = self.coverage.get(k, 0) + int(v)
             os.remove(sf)
         log("[trace] %s: %d events validated in %.1fs, %d verdict(s)" % (tag, len(lines), time.time() - t0, len(verdicts)))
+        for v in verdicts:
+            if not v.get("fn") and "/" in v.get("cls", ""):
+                v["fn"] = v["cls"].split("/")[0]
         # dedupe (PrintT may fire more than once per state)
         seen, uniq = set(), []
         for v in verdicts:
-            k = (v["sid"], v["seq"], v["prop"], v["pred"])
+            k = (v["sid"], v["seq"], v["prop"], v["pred"], v["cls"])
             if k not in seen:
                 seen.add(k)
                 uniq.append(v)
@@ -336,8 +341,8 @@ class Run:
         vs = self.validate(tf, "confirm", shards=NCPU)
         os.remove(tf)
         self.events, self.coverage, self.nt, self.states, self.transitions = saved
-        again = {(v["sid"], v["seq"], v["prop"], v["pred"]) for v in vs}
-        return [v for v in verdicts if (v["sid"], v["seq"], v["prop"], v["pred"]) in again]
+        again = {(v["sid"], v["seq"], v["prop"], v["pred"], v["cls"]) for v in vs}
+        return [v for v in verdicts if (v["sid"], v["seq"], v["prop"], v["pred"], v["cls"]) in again]
 
 
 def shorten(x, n=48):
@@ -379,6 +384,12 @@ def finish(run, level, rule, assumptions, extra_cov=None, exhaustive=False):
     """Turn verdicts into the exit status, write the evidence file, print VIOLATION / KNOWN-FINDING lines."""
     prop = run.prop
     mine = [v for v in run.verdicts if v["prop"] == prop]
+    if os.environ.get("VERIF_DEBUG"):
+        seen = {}
+        for v in run.verdicts:
+            seen.setdefault((v["prop"], v["pred"], v["fn"], v["cls"]), []).append(v)
+        for k, vs in sorted(seen.items()):
+            log("[all-verdicts] %s %s fn=%s cls=%s n=%d sid=%d" % (k[0], k[1], k[2], k[3], len(vs), vs[0]["sid"]))
     known = load_known()
     known_hits, new = {}, []
     for v in mine:
@@ -395,11 +406,11 @@ def finish(run, level, rule, assumptions, extra_cov=None, exhaustive=False):
         groups.setdefault((v["pred"], v["fn"], v["cls"]), []).append(v)
     unconfirmed = 0
     firsts = [vs[0] for vs in groups.values()]
-    confirmed = {(v["sid"], v["seq"], v["pred"]) for v in run.confirm_all(firsts)}
+    confirmed = {(v["sid"], v["seq"], v["pred"], v["cls"]) for v in run.confirm_all(firsts)}
     for key, vs in groups.items():
         v = vs[0]
         log("[verdict] %s pred=%s fn=%s cls=%s (%d event(s))" % (prop, v["pred"], v["fn"], v["cls"], len(vs)))
-        if (v["sid"], v["seq"], v["pred"]) in confirmed:
+        if (v["sid"], v["seq"], v["pred"], v["cls"]) in confirmed:
             vec = run.vectors[v["sid"] - 1]
             h = hashlib.sha1(json.dumps([key, vec], sort_keys=True).encode()).hexdigest()[:12]
             path = os.path.join(REPLAYS, prop, "%s-%s.json" % (v["pred"], h))
